@@ -784,6 +784,43 @@ def core_shadow_every_name(chk):
 
 
 # ------------------------------------------------------------------------------------------------------------------
+def require_frame(chk):
+    """Frame condition of hy.macros.require on the *source* module: it reads the module's macros and export list and writes nothing
+    into it - so what a later require brings in is the module's macros of that moment (a module can gain macros after it was first
+    required: hy.eval / REPL definitions, its own later requires, circular requires)."""
+    import sys
+    import types
+    import hy
+    import hy.macros as hmac
+    bad = []
+    for variant, req2, use in (("star", "(require hv_c35_src *)", "(m2)"), ("prefix", "(require hv_c35_src)", "(hv_c35_src.m2)"),
+                               ("as", "(require hv_c35_src :as S)", "(S.m2)"), ("names", "(require hv_c35_src [m2])", "(m2)")):
+        for first in ("(require hv_c35_src [m1])", "(require hv_c35_src *)", "(require hv_c35_src :as Q)"):
+            src = types.ModuleType("hv_c35_src")
+            sys.modules["hv_c35_src"] = src
+            try:
+                hy.eval(hy.read_many('(defmacro m1 [] "one") (defmacro _hidden [] "h")'), src.__dict__, module=src)
+                before = set(vars(src))
+                a = types.ModuleType("hv_c35_a")
+                hy.eval(hy.read_many(first + " 1"), a.__dict__, module=a)
+                written = sorted(set(vars(src)) - before - {"_hy_macros"})
+                hy.eval(hy.read_many('(defmacro m2 [] "two")'), src.__dict__, module=src)
+                b = types.ModuleType("hv_c35_b")
+                try:
+                    got = hy.eval(hy.read_many(f"{req2} {use}"), b.__dict__, module=b)
+                except Exception as e:  # noqa: BLE001
+                    got = f"{type(e).__name__}: {e}"
+            finally:
+                sys.modules.pop("hv_c35_src", None)
+            chk.case(("require-frame", variant, first))
+            if written or got != "two":
+                bad.append((first, req2, use, written, got))
+    chk.ob("require/frame: requiring writes nothing into the source module; a macro the module gains afterwards is brought in by the next require",
+           not bad, "rtc", "exhaustive_finite", detail=str(bad[:2]),
+           replay=None if not bad else {"confirmed": True, "input": f"{bad[0][0]} ; the source module gains m2 ; {bad[0][1]} {bad[0][2]}",
+                                        "observed": f"written into the source module: {bad[0][3]}; value {bad[0][4]!r}", "expected": "'two'"})
+
+
 def scope_end_on_errors(chk):
     """"Local macros stop applying when their scope ends" - also when the scope ends by a compile-time error and the same compiler
     goes on compiling (the REPL keeps one compiler for the session; hy_compile accepts a compiler).  Frame condition on
@@ -865,6 +902,7 @@ def run(chk):
     CORE = frozenset(builtins._hy_macros)
     core_shadow_every_name(chk)
     scope_end_on_errors(chk)
+    require_frame(chk)
     os.makedirs("/root/scratch", exist_ok=True)
     scratch = tempfile.mkdtemp(prefix="c35_", dir="/root/scratch")
     sys.path.insert(0, scratch)
